@@ -60,6 +60,9 @@ def run(check: Check) -> None:
         for j in range(3):
             for c in range(3):
                 native("pynorm", i, j, c, __SHARD__=i)
+    for i in range(len(ch_c15.PYSTR)):
+        for pos in range(3):
+            native("pystr", i, pos)
     check.obligation("lexing/native cross-validation", "ground" if not fails else "refuted")
     seen_f = set()
     for fname, args, glob in fails:
@@ -83,7 +86,7 @@ def run(check: Check) -> None:
         "ws_formula": [{"SHARD": k, "S": (1 if thorough else 0)} for k in range(12)],
         "quote_name": [{"N": N}], "quote_name_factor": [0, 1, 2, 3], "quote_name_known": [0, 1], "quote_python": [{"N": N}],
         "spans": [{"N": N}],
-        "pynorm": list(range(10)),
+        "pynorm": list(range(10)), "pystr": [None],
     }
     for f in fns:
         check.functions.add(f"harness.ch_c15:{f}")
